@@ -8,7 +8,8 @@ import MdVerif.Driver.Topo
 import MdVerif.Driver.Writer
 import MdVerif.Driver.Sel
 import MdVerif.Driver.Mic
-open MdVerif MdVerif.Driver MdVerif.Driver.TrajP MdVerif.Driver.TopoP MdVerif.Driver.WriterP MdVerif.Driver.SelP MdVerif.Driver.MicP
+import MdVerif.Driver.Cell
+open MdVerif MdVerif.Driver MdVerif.Driver.TrajP MdVerif.Driver.TopoP MdVerif.Driver.WriterP MdVerif.Driver.SelP MdVerif.Driver.MicP MdVerif.Driver.CellP
 
 def handle (line : String) : String :=
   let ws := (line.splitOn " ").filter (· ≠ "")
@@ -19,6 +20,7 @@ def handle (line : String) : String :=
   | "writer" :: _ | "save" :: _ => handleWriter ws
   | "sel" :: _ => handleSel ws
   | "mic" :: _ => handleMic ws
+  | "cell" :: _ | "cellops" :: _ => handleCell ws
   | _ => "bad-op"
 
 partial def loop (h : IO.FS.Stream) (out : IO.FS.Stream) : IO Unit := do
